@@ -95,6 +95,7 @@ class State:
         self.absent = set()       # (map, key): key established absent from the map and not inserted since
         self.present = set()      # (map, key): key established present and nothing erased since
         self.retref = []          # per inlined call: does the callee return a reference
+        self.rangecopy = {}       # local vector V -> caller's range R: V was filled, in order, with one (r, nullopt) per element r of R
 
     def clone(self):
         s = State.__new__(State)
@@ -113,6 +114,7 @@ class State:
         s.absent = set(self.absent)
         s.present = set(self.present)
         s.retref = list(self.retref)
+        s.rangecopy = dict(getattr(self, 'rangecopy', {}))
         s.this_obj = list(getattr(self, 'this_obj', []))
         return s
 
@@ -230,7 +232,7 @@ def root_of(t):
         elif k in ('deref', 'optval'):
             through_ptr = True
             t = t[1]
-        elif k in ('idx', 'hasval', 'addr'):
+        elif k in ('idx', 'hasval', 'addr', 'rcslot'):
             t = t[1]
         elif k == 'q':
             t = t[2]
@@ -317,7 +319,7 @@ class Evaluator:
         if k in ('int', 'bool', 'enum', 'ctor', 'now', 'rng', 'pred', 'res', 'adv', 'add', 'bin', 'cmp', 'not',
                  'unk', 'global', 'cast', 'hasval', 'optval', 'float', 'str', 'pair', 'undef', 'some', 'lv', 'ld', 'ma',
                  'fn', 'void', 'default', 'un', 'mcall', 'fncall', 'randdev', 'rng-state', 'iota', 'lambda', 'addr', 'vit',
-                 'atomicval', 'persistent', 'guardval', 'inserter', 'nodeh'):
+                 'atomicval', 'persistent', 'guardval', 'inserter', 'nodeh', 'keyless'):
             if k == 'lv' and loc in st.store:
                 return st.store[loc]
             return loc
@@ -387,6 +389,16 @@ class Evaluator:
         return None
 
     def write(self, st, loc, val, n, how='='):
+        if isinstance(loc, tuple) and len(loc) == 3 and loc[0] == 'fld' and loc[2] == 'second' and isinstance(loc[1], tuple) \
+                and loc[1][0] == 'rcslot' and loc[1][1] in st.rangecopy:
+            # out[i].second = r on the pre-filled output: the answer for R[i] is delivered paired with R[i] (= out.emplace_back(R[i], r))
+            V, i = loc[1][1], loc[1][2]
+            key = self.load(st, ('idx', st.rangecopy[V], i), n)
+            k = st.fresh()
+            st.results[k] = (V, 'emplace_back', (key, val), 'vector')
+            st.ev('call', V, 'emplace_back', (key, val), ('res', k), site_of(n, st), 'vector', frozenset())
+            st.store[loc] = val
+            return
         st.store[loc] = val
         if isinstance(loc, tuple) and loc[0] == 'fld' and isinstance(loc[1], tuple) and loc[1][0] in ('idx', 'deref'):
             st.fieldwrites.setdefault(loc[2], []).append(loc[1])
@@ -522,7 +534,8 @@ class Evaluator:
                 yield st, b
                 return
             if rk == 'VarDecl':
-                yield st, ('global', r.get('name'))
+                c = getattr(self.prog, 'constants', {}).get(r['id'])
+                yield st, (c if c is not None else ('global', r.get('name')))
                 return
             yield st, ('p', r.get('name'))
             return
@@ -551,6 +564,8 @@ class Evaluator:
         if isinstance(b, tuple) and b and b[0] == 'addr':
             b = b[1]                 # p->f with p = &x
         if isinstance(b, tuple):
+            if b[0] == 'rcslot' and name == 'first' and b[1] in st.rangecopy:
+                return ('idx', st.rangecopy[b[1]], b[2])         # the key copied from the caller's range
             if b[0] == 'pair' and name in ('first', 'second'):
                 return b[1] if name == 'first' else b[2]
             if b[0] == 'ctor':
@@ -572,8 +587,8 @@ class Evaluator:
                     if len(kv) >= 2:
                         if name == 'first':
                             return kv[0]
-                        if name == 'second' and ('fld', b, name) not in st.store:
-                            return kv[1]
+                        if name == 'second' and ('fld', b, name) not in st.store and not (isinstance(kv[1], tuple) and kv[1] and kv[1][0] == 'ctor'):
+                            return kv[1]          # (a record-typed mapped value stays a location: its members are written through it)
         return ('fld', b, name)
 
     def e_BinaryOperator(self, n, st):
@@ -589,6 +604,14 @@ class Evaluator:
             for st2, rt in self.rv(r, st):
                 for st3, lt in self.eval(l, st2):
                     self.write(st3, lt, rt, n)
+                    yield st3, lt
+            return
+        if op in ('+=', '-=') and self.bool_under_casts(r) is not None and qt(l) != 'bool':
+            # count += static_cast<size_t>(ok) / count += ok: a bool converts to exactly 0 or 1
+            for st2, truth in self.cond(self.bool_under_casts(r), st):
+                for st3, lt in self.eval(l, st2):
+                    old = self.load(st3, lt, n)
+                    self.write(st3, lt, self.arith(op[0], old, ('int', 1 if truth else 0)), n, op)
                     yield st3, lt
             return
         if op in ('+=', '-=', '*=', '/=', '|=', '&='):
@@ -614,6 +637,44 @@ class Evaluator:
                     yield st3, ('cmp', op, lt, rt)
                 else:
                     yield st3, self.arith(op, lt, rt)
+
+    def keyless_known(self, st, v):
+        """m.key_comp()(a, b) where one side is the key of the node find(k) / lower_bound(k) returned and the other is k itself"""
+        m, a, b = v[1], v[2], v[3]
+
+        def node_key(t):
+            # the `first` of the node an iterator-valued map query denotes -> (query name, looked-up key) or None
+            if isinstance(t, tuple) and t and t[0] == 'ld':
+                t = t[2]
+            if isinstance(t, tuple) and len(t) == 3 and t[0] == 'fld' and t[2] == 'first' and isinstance(t[1], tuple) and t[1] and t[1][0] == 'deref':
+                q = t[1][1]
+                if isinstance(q, tuple) and len(q) > 3 and q[0] == 'q' and q[1] in ('find', 'lower_bound') and q[2] == m and len(q[3]) == 1:
+                    return q[1], q[3][0]
+            return None
+        for x, y, swapped in ((a, b, False), (b, a, True)):
+            nk = node_key(y)
+            if nk is None or key_norm(nk[1]) != key_norm(x):
+                continue
+            if nk[0] == 'find':
+                return False                      # equal keys: neither is less than the other
+            if (m, key_norm(x)) in st.absent:
+                return not swapped                # k absent: k < lower_bound(k)->first, and not the other way round
+        return None
+
+    def bool_under_casts(self, x):
+        """the bool-typed operand of an integral conversion (implicit, static_cast, functional or C-style), or None"""
+        while True:
+            k = x.get('kind')
+            if qt(x) == 'bool' and k not in ('ParenExpr',):
+                return x
+            inner = [c for c in x.get('inner', []) if isinstance(c, dict) and c.get('kind')]
+            if k in ('ImplicitCastExpr', 'CXXStaticCastExpr', 'CStyleCastExpr', 'CXXFunctionalCastExpr', 'ParenExpr', 'ExprWithCleanups',
+                     'MaterializeTemporaryExpr') and len(inner) == 1 and x.get('castKind', 'IntegralCast') in ('IntegralCast', 'NoOp', 'LValueToRValue'):
+                if k == 'ImplicitCastExpr' and x.get('castKind') == 'LValueToRValue':
+                    return None
+                x = inner[0]
+                continue
+            return None
 
     def e_CompoundAssignOperator(self, n, st):
         yield from self.e_BinaryOperator(n, st)
@@ -810,12 +871,25 @@ class Evaluator:
         if name is None:
             yield st, self.unknown(st, 'opcall', n)
             return
+        if name == 'operator()' and fid not in self.ctx.lambdas and self.strip(args[0]).get('kind') == 'LambdaExpr':
+            # immediately-invoked lambda: `const bool x = [&] { ... }();`
+            for _ in self.e_LambdaExpr(self.strip(args[0]), st):
+                pass
         if name == 'operator()' and fid in self.ctx.lambdas:
             # a lambda called in the function that defines it: inline its body (captures resolve through the enclosing scope)
             yield from self.inline(self.ctx.lambdas[fid], args[1:], n, st)
             return
         a0 = args[0]
         t0 = typeclass(qt(a0))
+        if name == 'operator()' and len(args) == 3:
+            inner0 = self.strip(a0)
+            if inner0.get('kind') == 'CXXMemberCallExpr' and self.strip(inner0['inner'][0]).get('name') == 'key_comp':
+                # m.key_comp()(a, b): the map's strict ordering of keys
+                for st2, cmpobj in self.rv(a0, st):
+                    for st3, ts in self.eval_args(args[1:], st2):
+                        m = cmpobj[2] if isinstance(cmpobj, tuple) and len(cmpobj) > 2 else None
+                        yield st3, ('keyless', m, ts[0], ts[1])
+                return
         if t0 == 'atomic':
             # ++a, a += n, a = v ... on a std::atomic: one indivisible read-modify-write
             for st2, loc in self.eval(a0, st):
@@ -906,7 +980,9 @@ class Evaluator:
         if name == 'operator[]':
             for st2, recv in self.eval(a0, st):
                 for st3, it in self.rv(args[1], st2):
-                    if t0 == 'vector':
+                    if t0 == 'vector' and recv in st3.rangecopy:
+                        yield st3, ('rcslot', recv, it)          # slot i of the pre-filled output: (R[i], nullopt) until assigned
+                    elif t0 == 'vector':
                         st3.ev('q', ('q', 'operator[]', recv, (it,), None), site_of(n, st3))
                         yield st3, ('idx', recv, it)
                     else:
@@ -1413,6 +1489,14 @@ class Evaluator:
 
     def std_call(self, n, st, recv, tc, name, ts, arg_nodes=None):
         s = site_of(n, st)
+        if tc == 'vector' and recv in st.rangecopy and name == 'size' and not ts:
+            term = ('q', 'size', st.rangecopy[recv], (), st.epoch(st.rangecopy[recv]))
+            st.ev('q', term, s)
+            yield st, term
+            return
+        if tc == 'vector' and recv in st.rangecopy and name not in ('operator[]', 'at', 'reserve', 'capacity', 'empty'):
+            yield st, self.unknown(st, 'std member vector::%s on the pre-filled output container' % name, n)
+            return
         if tc == 'atomic':
             yield st, self.atomic_op(st, recv, name, ts, n)
             return
@@ -1542,6 +1626,30 @@ class Evaluator:
         for t, an in zip(ts, arg_nodes or []):
             if typeclass(qt(an)) in ITERATORS:
                 st.ev('use', t, 'arg:' + name, s)
+        if tc == 'map' and name == 'lower_bound' and len(ts) == 1 and root_of(recv)[0] in ('field', 'this'):
+            # unique keys: lower_bound(k) is find(k) when k is present, otherwise the first entry with a greater key (or end())
+            mk = (recv, key_norm(ts[0]))
+            findt = ('q', 'find', recv, (ts[0],), st.epoch(recv))
+            endt = ('q', 'end', recv, (), None)
+            lbt = ('q', 'lower_bound', recv, (ts[0],), st.epoch(recv))
+            if mk in st.present:
+                st.ev('q', findt, s)
+                yield st, findt
+            elif mk in st.absent:
+                st.ev('q', lbt, s)
+                yield st, lbt
+            else:
+                sp = st.clone()
+                sp.ev('q', findt, s)
+                sp.ev('cond', ('cmp', '!=', findt, endt), True, s)
+                sp.present.add(mk)
+                yield sp, findt
+                st.ev('q', findt, s)
+                st.ev('cond', ('cmp', '!=', findt, endt), False, s)
+                st.absent.add(mk)
+                st.ev('q', lbt, s)
+                yield st, lbt
+            return
         if kind in ('pure', 'stable'):
             ep = None if kind == 'stable' else st.epoch(recv)
             term = ('q', name, recv, tuple(ts), ep)
@@ -1788,6 +1896,11 @@ class Evaluator:
             if v in st2.decided:
                 yield st2, (st2.decided[v] != inv)
                 continue
+            if isinstance(v, tuple) and v and v[0] == 'keyless':
+                kl = self.keyless_known(st2, v)
+                if kl is not None:
+                    yield st2, (kl != inv)
+                    continue
             s = site_of(n, st2)
             pk = presence_key(v)
             if pk is not None:
@@ -2395,7 +2508,11 @@ class Evaluator:
                     else:
                         L.iters.append(Path(st_b.trace, flow[1], 'ret', st_b))
                         outs.append((st_b, flow))
-            st.ev('loop', L)
+            pf = self.prefill_of(L, range_info, st, lid) if kind == 'range' else None
+            if pf is not None:
+                st.rangecopy[pf] = range_info[0]
+            else:
+                st.ev('loop', L)
             # paths that return from inside an iteration
             for st_b, flow in outs:
                 r = st.clone()
@@ -2423,6 +2540,43 @@ class Evaluator:
                     yield from after_init(st2)
         else:
             yield from after_init(st)
+
+    def prefill_of(self, L, range_info, st, lid):
+        """`for (const auto& k : R) out.emplace_back(k, std::nullopt);` over a caller-owned range R, `out` a still empty local vector:
+        -> out (the loop touches nothing else; it is replaced by the fact that out[i] == (R[i], nullopt) for every i < size(R))"""
+        rloc = range_info[0]
+        if root_of(rloc)[0] != 'param' or len(L.iters) != 1 or L.iters[0].status != 'continue':
+            return None
+        if any(e[0] not in ('iter', 'q', 'cond') for cp in L.cond_paths for e in cp.trace):
+            return None
+        calls = [e for e in L.iters[0].trace if e[0] not in ('iter', 'q', 'use', 'rd')]
+        if len(calls) != 1 or calls[0][0] != 'call':
+            return None
+        c = calls[0]
+        V, name, args = c[1], c[2], c[3]
+        if not (isinstance(V, tuple) and V and V[0] == 'var' and name in ('emplace_back', 'push_back')):
+            return None
+        if len(args) == 1 and isinstance(args[0], tuple) and args[0] and args[0][0] == 'pair':
+            args = (args[0][1], args[0][2])
+        if len(args) != 2:
+            return None
+        k0 = args[0][2] if (isinstance(args[0], tuple) and args[0] and args[0][0] == 'ld') else args[0]
+        if k0 != ('elem', rloc, lid):
+            return None
+        if not (args[1] == ('global', 'nullopt') or (isinstance(args[1], tuple) and args[1] and args[1][0] == 'ctor' and not args[1][2]
+                                                      and 'optional' in str(args[1][1]))):
+            return None
+        # nothing was put into the vector before (reserve only)
+        for e in st.trace:
+            if e[0] == 'call' and e[1] == V and e[2] != 'reserve':
+                return None
+            if e[0] == 'loop':
+                for it in e[1].iters:
+                    if any(x[0] == 'call' and x[1] == V for x in it.trace):
+                        return None
+        if V in st.rangecopy:
+            return None
+        return V
 
     def s_WhileStmt(self, n, st):
         parts = [c for c in n.get('inner', []) if isinstance(c, dict) and c.get('kind')]
@@ -2475,6 +2629,9 @@ class Evaluator:
     def bind_range_var(self, range_info, st, lid):
         rloc, var = range_info
         elem = ('elem', rloc, lid)
+        if rloc in st.rangecopy:
+            # walking the pre-filled output front to back: its i-th slot pairs the caller's i-th key with the answer
+            elem = ('rcslot', rloc, ('lv', '$pos', lid, 'iter', 'rangecopy'))
         d = [c for c in var.get('inner', []) if c.get('kind')][0]
         k = d.get('kind')
         if k == 'DecompositionDecl':
@@ -2499,7 +2656,7 @@ class Evaluator:
                 if member is not None:
                     term = ('fld', base, member)
                 elif bt == 'pair':
-                    term = ('fld', base, 'first' if idx == 0 else 'second')
+                    term = self.project(st, base, 'first' if idx == 0 else 'second')
                 else:
                     term = ('get', idx, base)
                 if not is_ref:
